@@ -403,7 +403,7 @@ func (t *State) PlayForMiner(blockid []byte) error {
 	var err error
 	defer func() {
 		if err != nil {
-			t.clearBalanceCache()
+			t.ClearCache()
 		}
 	}()
 	for _, tx := range block.Transactions {
@@ -843,6 +843,10 @@ func (t *State) ClearCache() {
 	t.utxo.PrevFoundKeyCache = cache.NewLRUCache(t.utxo.CacheSize)
 	t.clearBalanceCache()
 	t.xmodel.CleanCache()
+	// the caches are cleared when a batch was dropped: the total it had moved goes back too
+	if err := t.utxo.ReloadUtxoTotal(); err != nil {
+		t.log.Warn("reload utxo total failed", "err", err)
+	}
 	t.log.Info("clear utxo cache")
 }
 
